@@ -267,6 +267,14 @@ def execute(prop, scen):
                 other = (spec["selected"] + 1) % len(spec["members"])
                 spec2 = dict(spec, selected=other)
                 run("set_params", lambda: comp.set_params(selected_forecaster="m%d" % other))
+            elif len(spec["members"]) >= 2 and scen["series"]["seed"] % 2 == 0:
+                # a member is replaced by name with a differently configured forecaster
+                new_member = {"kind": "naive", "strategy": "mean", "sp": 1, "window_length": 3}
+                if spec["members"][0] == new_member:
+                    new_member = {"kind": "trend", "degree": 1, "with_intercept": True}
+                spec2 = dict(spec, members=[new_member] + spec["members"][1:])
+                repl = peers.SpyForecaster(C.build(new_member), tag="m0")
+                run("set_params", lambda: comp.set_params(m0=repl))
             else:
                 agg2 = {"mean": "median", "median": "max", "max": "min", "min": "mean"}[spec["aggfunc"]]
                 spec2 = dict(spec, aggfunc=agg2)
